@@ -13,7 +13,7 @@ ID = 'C19'
 LEVEL = 'exploration'
 TECHNIQUE = 'bounded-exhaustive trees (generated documents + tolerant parses of all short words), recorded callback sequence vs independent post-order walk'
 
-SPECS = {'quick': dict(R=4, L=3, A=3, Z=3, CR=3), 'thorough': dict(R=5, L=4, A=4, Z=4, CR=4)}
+SPECS = {'quick': dict(R=4, L=3, A=3, Z=3, CR=3, E=3), 'thorough': dict(R=5, L=4, A=4, Z=4, CR=4, E=4)}
 
 
 FALSY = [0, '', None, (), False]
